@@ -644,7 +644,7 @@ func (fr *Frame) unop(st *State, in *ssa.UnOp) bool {
 		}
 		x.T = in.X.Type()
 		v.T = et
-		r.assume(st, sImp(sNot(sSelect(r.get(st, "g|$closed"), x.S)), okv.S))
+		r.assume(st, sImp(sAnd(sNot(sSelect(r.get(st, "g|$closed"), x.S)), r.notVolChan(x.S)), okv.S))
 		fr.curChanKey = chanKey(in.X, in.X.Type())
 		fr.chanRecvAssume(st, x, v, okv)
 		if in.CommaOk {
@@ -1028,11 +1028,42 @@ func (fr *Frame) lookup(st *State, in *ssa.Lookup) {
 	}
 }
 
+// rangeHome: the frame whose contract names this map iteration (rposN, rkeysN, ...) and its
+// ordinal there: the frame itself, or for a helper without a contract inlined into a function
+// under contract that function, with the iteration numbered as if it stood at the call.
+// notVolChan: no goroutine spawned so far in this run closes the channel.
+func (r *Run) notVolChan(ch string) string {
+	var cs []string
+	for _, v := range r.volChans {
+		cs = append(cs, sOr(sNot(v[0]), sNot(sEq(ch, v[1]))))
+	}
+	return sAnd(cs...)
+}
+
+func (fr *Frame) rangeHome(in *ssa.Range) (*Frame, int) {
+	k := fr.rangeOrd[in]
+	if fr.contract != nil || fr.parent == nil {
+		return fr, k
+	}
+	f := fr
+	for f.contract == nil {
+		if f.parent == nil || f.callSite == nil || f.parent.inlineBase == nil || f.parent.inlineBase[f.callSite] == nil {
+			return fr, fr.rangeOrd[in]
+		}
+		if f.fn != nil && f.fn.Parent() != nil {
+			return fr, fr.rangeOrd[in]
+		}
+		k += f.parent.inlineBase[f.callSite]["range"]
+		f = f.parent
+	}
+	return f, k
+}
+
 func (fr *Frame) rangeInit(st *State, in *ssa.Range) {
 	r := fr.r
-	ord := fr.rangeOrd[in]
+	hf, ord := fr.rangeHome(in)
 	x := fr.val(st, in.X)
-	posKey := fmt.Sprintf("it|%s|%d", fr.inst, ord)
+	posKey := fmt.Sprintf("it|%s|%d", hf.inst, ord)
 	r.declKey(posKey, "Int")
 	st.mem[posKey] = "0"
 	mt, ok := in.X.Type().Underlying().(*types.Map)
@@ -1048,7 +1079,7 @@ func (fr *Frame) rangeInit(st *State, in *ssa.Range) {
 	// ghost key sequence: distinct keys enumerating the domain at range start
 	seq := r.facts.Fresh(fmt.Sprintf("rkeys%d", ord), "(Array Int "+ks+")")
 	n := r.facts.Fresh(fmt.Sprintf("rn%d", ord), "Int")
-	idxf := sym(fmt.Sprintf("ridx!%s!%d!%d", fr.inst, ord, r.facts.fresh))
+	idxf := sym(fmt.Sprintf("ridx!%s!%d!%d", hf.inst, ord, r.facts.fresh))
 	r.facts.DeclareFun(idxf, []string{ks}, "Int")
 	dom := r.facts.Fresh("rdom", "(Array "+ks+" Bool)")
 	vals := r.facts.Fresh("rvals", "(Array "+ks+" "+vs+")")
@@ -1057,14 +1088,14 @@ func (fr *Frame) rangeInit(st *State, in *ssa.Range) {
 	r.facts.Assert("(>= " + n + " 0)")
 	r.facts.Assert(fmt.Sprintf("(forall ((i Int)) (! (=> (and (<= 0 i) (< i %s)) (and (select %s (select %s i)) (= (%s (select %s i)) i))) :pattern ((select %s i))))", n, dom, seq, idxf, seq, seq))
 	r.facts.Assert(fmt.Sprintf("(forall ((k %s)) (! (=> (select %s k) (and (<= 0 (%s k)) (< (%s k) %s) (= (select %s (%s k)) k))) :pattern ((select %s k)) :pattern ((%s k))))", ks, dom, idxf, idxf, n, seq, idxf, dom, idxf))
-	if fr.rangeIdxFn == nil {
-		fr.rangeIdxFn = map[int]string{}
+	if hf.rangeIdxFn == nil {
+		hf.rangeIdxFn = map[int]string{}
 	}
-	fr.rangeIdxFn[ord] = idxf
-	fr.names[fmt.Sprintf("rkeys%d", ord)] = Val{K: KSpec, Sort: "(Array Int " + ks + ")", S: seq, T: types.NewSlice(mt.Key())}
-	fr.names[fmt.Sprintf("rn%d", ord)] = intVal(n)
-	fr.names[fmt.Sprintf("rdom%d", ord)] = Val{K: KSpec, Sort: "(Array " + ks + " Bool)", S: dom}
-	fr.names[fmt.Sprintf("rvals%d", ord)] = Val{K: KSpec, Sort: "(Array " + ks + " " + vs + ")", S: vals, T: mt}
+	hf.rangeIdxFn[ord] = idxf
+	hf.names[fmt.Sprintf("rkeys%d", ord)] = Val{K: KSpec, Sort: "(Array Int " + ks + ")", S: seq, T: types.NewSlice(mt.Key())}
+	hf.names[fmt.Sprintf("rn%d", ord)] = intVal(n)
+	hf.names[fmt.Sprintf("rdom%d", ord)] = Val{K: KSpec, Sort: "(Array " + ks + " Bool)", S: dom}
+	hf.names[fmt.Sprintf("rvals%d", ord)] = Val{K: KSpec, Sort: "(Array " + ks + " " + vs + ")", S: vals, T: mt}
 	fr.set(in, Val{K: KSpec, S: fmt.Sprint(ord), Sort: "iter"})
 }
 
@@ -1075,15 +1106,15 @@ func (fr *Frame) rangeNext(st *State, in *ssa.Next) {
 		fr.set(in, r.freshVal("next", in.Type(), st))
 		return
 	}
-	ord := fr.rangeOrd[rg]
-	seq, ok1 := fr.names[fmt.Sprintf("rkeys%d", ord)]
-	n, ok2 := fr.names[fmt.Sprintf("rn%d", ord)]
-	vals, ok3 := fr.names[fmt.Sprintf("rvals%d", ord)]
+	hf, ord := fr.rangeHome(rg)
+	seq, ok1 := hf.names[fmt.Sprintf("rkeys%d", ord)]
+	n, ok2 := hf.names[fmt.Sprintf("rn%d", ord)]
+	vals, ok3 := hf.names[fmt.Sprintf("rvals%d", ord)]
 	if !ok1 || !ok2 || !ok3 {
 		fr.set(in, r.freshVal("next", in.Type(), st))
 		return
 	}
-	posKey := fmt.Sprintf("it|%s|%d", fr.inst, ord)
+	posKey := fmt.Sprintf("it|%s|%d", hf.inst, ord)
 	pos := r.get(st, posKey)
 	mt := rg.X.Type().Underlying().(*types.Map)
 	kk, ksrt := kindOf(mt.Key())
@@ -1132,7 +1163,7 @@ func (fr *Frame) selectOp(st *State, in *ssa.Select) {
 			sub.pc = sAnd(st.pc, sEq(idx, fmt.Sprint(i)))
 			ch.T = s.Chan.Type()
 			v.T = et
-			r.assume(sub, sImp(sNot(sSelect(r.get(st, "g|$closed"), ch.S)), okv))
+			r.assume(sub, sImp(sAnd(sNot(sSelect(r.get(st, "g|$closed"), ch.S)), r.notVolChan(ch.S)), okv))
 			fr.curChanKey = chanKey(s.Chan, s.Chan.Type())
 			fr.chanRecvAssume(sub, ch, v, boolVal(okv))
 		} else {
